@@ -30,7 +30,9 @@ def parts(tier):
          corpus.window_desc('3SGB', 'I', 0, 12), corpus.cluster_desc(('TYR', 'CYS', 'HIS'), 'line', 3.0, 'deep'),
          # iterative clusters that do not converge within the 10 iterations / converge slowly (found by a sweep of S3)
          corpus.cluster_desc(('GLU', 'GLU', 'GLU'), 'line', 3.0, 'mid'), corpus.cluster_desc(('ASP', 'ASP', 'GLU'), 'line', 3.0, 'deep'),
-         corpus.cluster_desc(('GLU', 'GLU', 'PYR'), 'line', 3.0, 'mid')]
+         corpus.cluster_desc(('GLU', 'GLU', 'PYR'), 'line', 3.0, 'mid'),
+         # incomplete residues: groups whose interaction atoms are missing must not fall back on absolute positions
+         corpus.window_desc('1HPX', 'A', 20, 15, strip='tips')]
     if tier == 'thorough':
         p += [corpus.chain_desc('3SGB', 'I'), corpus.pair_desc('PYR', 'GLU', 2.8, 'deep'), corpus.pair_desc('MGU', 'ASP', 2.8, 'mid'),
               corpus.pair_desc('ZN', 'HIS', 2.2, 'mid'), corpus.pair_desc('MPO', 'ARG', 3.0, 'exposed'),
@@ -62,9 +64,13 @@ def plan(tier, seed):
         for j in range(len(coupled)):
             shards.append([dict(a=i, b=j, sep=s_, axis='x', order=o, cfg=list(bits), lib='coupled')
                            for bits in ((1, 0, 1), (1, 1, 1), (0, 1, 1)) for s_ in (26.0, 1001.0) for o in (0, 1)])
+    # whole reference structures next to a large partner (several copies of another structure): a step that looks at 'all groups
+    # of the conformation' at once (convergence, normalisation) would couple the two
+    bigpairs = [(0, 1)] if tier == 'quick' else [(0, 1), (0, 4), (2, 1), (3, 1), (5, 1), (0, 5), (2, 3)]
+    shards += [[dict(a=i, b=j, sep=100.0, axis='x', order=o, lib='big')] for i, j in bigpairs for o in ((0,) if tier == 'quick' else (0, 1))]
     return dict(shards=shards, exhaustive=True,
                 rule=('parts: %d library entries; unions of every ordered pair (A=B included) at nearest-atom separations %s A along '
-                      'axes %s, B first or second in the file. non-trivial = distinct unions in which both parts carry at least one '
+                      'axes %s, B first or second in the file; whole reference files next to 2-3 copies of another one (100 A). non-trivial = distinct unions in which both parts carry at least one '
                       'group with a determinant or a non-zero desolvation term') % (len(ps), list(seps), list(axes)),
                 bounds=dict(parts=len(ps), separations=list(seps), axes=list(axes)),
                 samples=[dict(a=ps[0], b=ps[2], sep=1001.0, axis='x', order=0)])
@@ -120,7 +126,38 @@ def interesting(rec):
 COUPLED = None
 
 
+BIG = [dict(t='whole', key='4DFR', copies=1), dict(t='whole', key='1FTJ', copies=2), dict(t='whole', key='1HPX', copies=1),
+       dict(t='whole', key='3SGB', copies=1), dict(t='whole', key='1FTJ', copies=3), dict(t='whole', key='1FTJ', copies=1)]
+
+
+def whole_part(d, seed):
+    """A complete reference file (all its conformations, ligands, waters), optionally as several copies 100 A apart with chain ids
+    of their own: the large, already converged partner that a convergence test over 'all groups' would be diluted by."""
+    lib = gen.library()
+    out = None
+    for k in range(d['copies']):
+        s = gen.parse_text(lib.text(d['key']))
+        s = gen.S([i for i in s.items if not isinstance(i, str) or i.startswith('TER')])
+        if d['copies'] > 1:
+            m = {}
+            for a in s.atoms:
+                if a.chain not in m:
+                    m[a.chain] = 'PQRSTUVWXY'[(len(m) + 3 * k) % 10]
+                a.chain = m[a.chain]
+        if out is None:
+            out = s
+        else:
+            s = place(out, s, 100.0, 'y')
+            items = list(out.items)
+            if not (isinstance(items[-1], str) and items[-1].startswith('TER')):
+                items.append('TER\n')
+            out = gen.S(items + s.items)
+    return out.translate(gen.seed_offset(seed))
+
+
 def build_part(d, seed):
+    if d['t'] == 'whole':
+        return whole_part(d, seed)
     if d['t'] == 'ligand':
         return gen.ligand(d['name'], 'L', 1).translate(gen.seed_offset(seed))
     return corpus.build(d, seed)
@@ -131,6 +168,8 @@ def run_case(case, ctx, acc):
     if case.get('lib') == 'coupled':
         ps = [corpus.window_desc('3SGB', 'I', 0, 12), corpus.window_desc('1HPX', 'A', 66, 8), dict(t='ligand', name='MPO'),
               corpus.cutout_desc('4DFR', 'A', 26, 9.0)]
+    if case.get('lib') == 'big':
+        ps = BIG
     opts = ()
     if case.get('cfg'):
         import os
